@@ -12,6 +12,11 @@ ID = 'C14'
 GEN_SECTIONS = ['GenShape']
 COQ_TARGETS = ['Props/C14.vo']
 LEVEL = 'proof'
+MANIFEST = {
+    'text': "Theorems (Coq, all arrays of all lengths): the marker-based run-length decoder inverts the encoder for every integer derivative sequence, the error-feedback quantiser reconstructs every sample within 5e-8, the full compress/decompress pair (both force flags, raw/compressed decision) round-trips within 5e-8 and never stores more than the input. Constants (1e-7, <=4, -2/+2) are re-read from the source on every run; the extracted model is run against compress_shape/decompress_shape on ~1500 (quick) / 60000 (thorough) arrays and the 5e-8 bound is evaluated exactly on the implementation's output, also through sequence+file.",
+    'note': 'Trusted: Coq kernel; translator patterns for compress_shape.py/decompress_shape.py; extraction (ExtrOcamlBasic) + driver; binary64/NumPy arithmetic is outside the model (sampled by correspondence, tie-prone inputs oracle-only); printing/parsing of shape tokens sampled through the file stream.',
+    'technique': 'Rocq/Coq proof over a Gallina model (induction over runs / samples) + extraction-based correspondence',
+}
 BUDGET = {'quick': 150, 'thorough': 1500}
 MISMATCH_BUDGET = 0.0
 RULE = ('arrays drawn from 9 streams (uniform random, constant, piecewise linear with integer / fractional '
